@@ -228,17 +228,25 @@ Definition tape_of (s : seed_spec (tape O)) : tape O :=
   match s with Seeded z => seeded_tape O z | Unseeded e => e end.
 
 (* _generate_qpd_weights (weights.py:256-287):
+      if not num_samples >= 1: raise ValueError(...)                  (refused before anything is touched)
+      threshold = 1 / num_samples
       if smallest_probability >= threshold:  … return retval          (all exact: no RNG)
    otherwise control may reach _populate_samples. *)
+Definition ns_valid (ns : nsamples) : bool :=
+  match ns with NInf => true | NFin n => Qle_bool 1 n end.
+
 Definition reaches_sampler (a : args_ge O) (ns : nsamples) : bool :=
-  if Qle_bool (threshold ns) (smallest_probability O a) then false
+  if negb (ns_valid ns) then false
+  else if Qle_bool (threshold ns) (smallest_probability O a) then false
   else tail_reaches_sampler O a (threshold ns).
 
-(* the classes of calls the property speaks about *)
+(* the classes of calls the property speaks about: every find_cuts and from_instruction call, and every generation
+   that does not reach the sampler — num_samples = inf always (lemma exact_never_samples), and also every finite
+   num_samples >= 1/smallest_probability ("all exact weights") *)
 Definition exact_class (c : call) : bool :=
   match c with
   | FindCuts _ _ => true
-  | Gen a ns => match ns with NInf => true | NFin _ => false end
+  | Gen a ns => negb (reaches_sampler a ns)
   | FromInstruction _ => true
   end.
 
